@@ -9,7 +9,7 @@ def main():
     prog = dump_ssa('c01')
     thorough = ck.tier == 'thorough'
     maxc = 2 if thorough else 1
-    keylens = [1, 16, 31, 32] if thorough else [32]
+    keylens = [int(x) for x in os.environ['VERIF_C01_KEYLENS'].split(',')] if os.environ.get('VERIF_C01_KEYLENS') else ([32, 31, 16, 1] if thorough else [32, 31])
     ck.bounds.append('sign then verify: private key lengths %s (contents symbolic), digest 32 symbolic bytes, up to %d nonce candidates; id/message-level entry points with id of 0/16 bytes and message of 0/5 bytes' % (keylens, maxc))
     ck.outside.append('more than %d consecutive rejected nonce candidates' % maxc)
     ck.assumptions += sm2model.CONTRACTS
@@ -18,6 +18,42 @@ def main():
     unknown = []
     npaths = [0]
     t0 = time.time()
+
+    # ---------------------------------------------------------------- special vectors on the real build first (cheap): keys with leading zero
+    # bytes, short key encodings, extreme digests and nonces - signing must agree with the reference and the signature must verify
+    rng0 = ck.rng
+    sv = []
+    for dv, klen_ in [(rng0.randrange(1, N - 1), 32), (rng0.randrange(1, 2 ** 247), 32), (rng0.randrange(1, 2 ** 200), 32), (1, 32), (N - 2, 32), (rng0.randrange(2 ** 240, 2 ** 248), 31),
+                      (rng0.randrange(1, 2 ** 240), 31), (rng0.randrange(2 ** 120, 2 ** 128), 16), (0x7f, 1), (rng0.randrange(1, N - 1), 32)]:
+        for evv, kv in [(rng0.getrandbits(256), rng0.randrange(1, N)), (0, 1), (2 ** 256 - 1, N - 1), (rng0.getrandbits(200), rng0.randrange(1, 2 ** 200))][:(4 if thorough else 2)]:
+            rs = ref.sign_k(dv, evv, kv)
+            if rs is None:
+                continue
+            pub = ref.mul(dv)
+            sv.append('{%s,%s,%s,%s,%s,%s,%s},' % (go_bytes(list(dv.to_bytes(klen_, 'big'))), go_bytes(b32(evv)), go_bytes(b32(kv) + b32(0x1234567) * 2), go_bytes(b32(rs[0])), go_bytes(b32(rs[1])), go_bytes(b32(pub[0])), go_bytes(b32(pub[1]))))
+    src0 = '''package sm2
+import ("testing"; "bytes")
+type verifReader struct{ b []byte; used int }
+func (r *verifReader) Read(p []byte) (int, error) { n := copy(p, r.b[r.used:]); r.used += n; return n, nil }
+func TestVerifReplay(t *testing.T) {
+	cases := []struct{ d, e, k, r, s, px, py []byte }{
+%s
+	}
+	for i, c := range cases {
+		r, s, err := SignHashed(&verifReader{b: c.k}, c.d, c.e)
+		if err != nil { t.Fatalf("case %%d (key of %%d bytes): sign error %%v", i, len(c.d), err) }
+		ok, err := VerifyHashed(c.px, c.py, c.e, r, s)
+		if !ok || err != nil { t.Fatalf("case %%d (key %%x): the library rejects its own signature r=%%x s=%%x (ok=%%v err=%%v)", i, c.d, r, s, ok, err) }
+		if !bytes.Equal(r, c.r) || !bytes.Equal(s, c.s) { t.Logf("note: case %%d differs from the reference signature (C02 decides)", i) }
+	}
+}''' % '\n'.join(sv)
+    ok0, out0, path0 = ck.go_test('sm2', src0, name='special_vectors')
+    if ok0 is True:
+        ck.validated += len(sv)
+    elif ok0 is False:
+        ck.record('signverify[special-vectors]', 'violated', 'a signature produced by the library for a special key / digest / nonce does not verify (or the call panics): ' + (out0 or '')[-300:].replace('\n', ' '))
+        ck.violation('special-vectors', 'sign-then-verify fails on the real build for a special key (leading zero bytes, short encoding, extreme digest or nonce)', path0)
+    eng.deadline = time.time() + (900 if not thorough else 3 * 3600)
 
     def analyse(e, d, klen, ev, rd, out, verify_fn, extra_args, info):
         """out: outcome of the signing call; then the matching verification is executed on the same path"""
@@ -87,6 +123,9 @@ def main():
                 fails.setdefault(f[0] + '@msg', []).append(f)
     secs = time.time() - t0
     ck.absorb(eng)
+    if getattr(eng, 'budget_hit', None):
+        ck.record('signverify[time-budget]', 'inconclusive', 'the symbolic exploration stopped at its time budget after %d paths (%d decision prefixes left unexplored)' % (npaths[0], eng.budget_hit))
+    wit_deadline = time.time() + (600 if not thorough else 3600)
 
     # ---------------------------------------------------------------- witnesses: re-run the failing path with true curve values
     def witness(key, f):
@@ -95,6 +134,8 @@ def main():
         _, desc, info, kind = f
         klen = info['klen']
         for attempt in range(6):
+            if time.time() > wit_deadline:
+                break
             # the private key is pinned to a random value (generic failures), to a value with leading zero bytes, or left
             # to the solver (failures that need a special key); the nonce is always pinned (its curve point is needed)
             dmax = min(N - 2, 256 ** klen - 1)
